@@ -254,19 +254,8 @@ def r8_no_fitted_state(ctx):
                 continue
             ctx.touch(EF, f"{cname}.{name}")
             n += 1
-            stores = []
-            for x in ast.walk(fn):
-                if isinstance(x, (ast.Assign, ast.AnnAssign)):
-                    for t in (x.targets if isinstance(x, ast.Assign) else [x.target]):
-                        for tt in (t.elts if isinstance(t, (ast.Tuple, ast.List)) else [t]):
-                            base = tt
-                            while isinstance(base, ast.Subscript):
-                                base = base.value
-                            if is_self_attr(base):
-                                stores.append((base.attr, x.lineno))
-                if isinstance(x, ast.Call) and isinstance(x.func, ast.Attribute) and x.func.attr in ("append", "extend", "update", "setdefault", "add", "insert", "pop", "clear") \
-                        and is_self_attr(x.func.value):
-                    stores.append((x.func.value.attr, x.lineno))
+            from ..util import self_state_stores
+            stores = self_state_stores(fn, c.methods.values())
             ctx.ob("C11.R8", EF, f"{cname}.{name}", fn, "the method stores nothing on the (shared) filter object", not stores, detail={"stores": stores}, stmt=f"{cname}.{name} stateless")
     ctx.floor("C11.R8", "Scale/Impute read-path methods", n, 5)
 
